@@ -51,6 +51,9 @@ type Driver struct {
 	created []*accountant.Vertex      // vertices created by nodes or forged
 	parted  bool
 	Forbid  int // forbidden offers made (C10)
+	// OnQuiet, when set, is called at quiescent points (no harness call in flight): every QuietEvery steps and at the end.
+	OnQuiet    func(d *Driver)
+	QuietEvery int
 }
 
 var big2p64 = new(big.Int).Mul(new(big.Int).Lsh(big.NewInt(1), 64), bigE18)
@@ -757,6 +760,9 @@ func (d *Driver) runBody(fund bool) {
 		default:
 			d.stepTransfer(r.Float64() < p.POverdraft)
 		}
+		if d.OnQuiet != nil && d.QuietEvery > 0 && s%d.QuietEvery == d.QuietEvery-1 {
+			d.OnQuiet(d)
+		}
 		switch p.Delivery {
 		case "delayed":
 			for r.Intn(3) != 0 {
@@ -796,6 +802,9 @@ func (d *Driver) runBody(fund bool) {
 			d.proposeOn(n, &t, "merge")
 		}
 		d.flushAll()
+	}
+	if d.OnQuiet != nil {
+		d.OnQuiet(d)
 	}
 }
 
